@@ -428,6 +428,21 @@ func runC03(c *eng.Ctx) {
 			// internal forwarding (NewReverseReaderFromEnd passes its own parameter on)
 			continue
 		}
+		// the replicator's loop, or a private helper of it that nobody but the replicator calls (the per-request body moved
+		// out of start into a method of its own)
+		if outer != "server.(*replicator).start" && strings.HasPrefix(outer, "server.(*replicator).") {
+			ref := "server.replicator." + strings.TrimPrefix(outer, "server.(*replicator).")
+			sites := eng.Index(p).Sites(ref)
+			only := len(sites) > 0
+			for _, cs := range sites {
+				if !strings.HasPrefix(cs.Outer(), "server.(*replicator).") {
+					only = false
+				}
+			}
+			if only {
+				outer = "server.(*replicator).start"
+			}
+		}
 		switch outer {
 		case "server.(*replicator).start":
 			c.Check(isConst && val, "reader in "+outer, c.Pos(s.Instr), "replication reads uncommitted data (by design)", "replicator does not read uncommitted data")
